@@ -817,7 +817,23 @@ fn generate(seed: u64, idx: u64, rng: &mut Rng) -> ConcCase {
             // be as atomic as on a handful (cut-offs, slices and "fairness" yields are exactly
             // where a guard gets released in the middle)
             linz = true;
-            if rng.chance(1, 2) {
+            let which = rng.below(3);
+            if which == 2 {
+                // a whole-file read against a whole-file replacement of another length: the read
+                // returns one of the contents, never a mixture or a length from one and bytes
+                // from the other (length probe + copy under two guards)
+                let a = *rng.pick(&[17_000usize, 40_000, 70_000]);
+                let b = *rng.pick(&[9_000usize, 33_000, 60_000, 140_000]);
+                let mut da = format!("<a{}>", idx).into_bytes();
+                da.resize(a, b'A');
+                let mut db = format!("<b{}>", idx).into_bytes();
+                db.resize(b, b'B');
+                setup = vec![Op::WriteAll { p: "/f".into(), d: Bytes(da) }];
+                threads.push(vec![Op::WriteAll { p: "/f".into(), d: Bytes(db) }]);
+                for _ in 0..2 {
+                    threads.push(vec![if rng.chance(3, 4) { Op::ReadAll { p: "/f".into() } } else { Op::ReadLines { p: "/f".into() } }; rng.range(1, 2) as usize]);
+                }
+            } else if which == 0 {
                 let n = *rng.pick(&[257usize, 300, 520]);
                 setup = vec![Op::MkdirP { p: "/big/sub".into() }];
                 for i in 0..n {
